@@ -185,7 +185,9 @@ class SysAdapter(Adapter):
             w['prisms'].pop(0)
             w['results'].pop(0)
             return obs
-        before = fingerprint(s)
+        # the state before the call is read off a deep copy: reading the System itself (every property of every object) could
+        # trigger - and so hide - anything an implementation evaluates lazily on access
+        before = fingerprint(copy.deepcopy(s))
         with warnings.catch_warnings(record=True) as caught:
             warnings.simplefilter('always')
             try:
